@@ -8,6 +8,7 @@ import (
 	"encoding/json"
 	"fmt"
 	"github.com/cosmos/cosmos-sdk/codec"
+	banktypes "github.com/cosmos/cosmos-sdk/x/bank/types"
 	"math/big"
 	"sort"
 	"strings"
@@ -39,6 +40,11 @@ type Variant struct {
 	UnsetPreviousBlockTime bool
 	// Relist: governance may remove the second asset from the parameters and list it again (same settings)
 	Relist bool
+	// BankSend: governance may switch the bank module's SendEnabled flag of the locked denomination off and on
+	// (a transfer freeze between accounts; it does not concern what the module owes at an expiry)
+	BankSend bool
+	// Only restricts the contract templates offered (nil = all of the variant's)
+	Only []string
 }
 
 type contract struct {
@@ -230,10 +236,22 @@ func (d *Driver) Init(e *mc.Env) *mc.State {
 }
 
 func (d *Driver) tmpls() []tmpl {
+	all := plainTmpls
 	if d.V.Cross {
-		return crossTmpls
+		all = crossTmpls
 	}
-	return plainTmpls
+	if d.V.Only == nil {
+		return all
+	}
+	var out []tmpl
+	for _, t := range all {
+		for _, n := range d.V.Only {
+			if t.name == n {
+				out = append(out, t)
+			}
+		}
+	}
+	return out
 }
 
 func (d *Driver) ts(t tmpl) uint64 {
@@ -254,6 +272,17 @@ func (d *Driver) Enabled(e *mc.Env, s *mc.State) []mc.Op {
 			ops = append(ops, mc.Op{Name: "gov:relist(eth)", Data: opData{kind: "relist"}})
 		} else {
 			ops = append(ops, mc.Op{Name: "gov:delist(eth)", Data: opData{kind: "delist"}})
+		}
+	}
+	if d.V.BankSend {
+		dn := "btc"
+		if d.V.Cross {
+			dn = bnb
+		}
+		if e.App.BankKeeper.IsSendEnabledDenom(s.Ctx, dn) {
+			ops = append(ops, mc.Op{Name: "gov:bank-send-enabled(" + dn + ",off)", Data: opData{kind: "banksend", why: dn, idx: 0}})
+		} else {
+			ops = append(ops, mc.Op{Name: "gov:bank-send-enabled(" + dn + ",on)", Data: opData{kind: "banksend", why: dn, idx: 1}})
 		}
 	}
 	minExp := int64(0)
@@ -422,6 +451,9 @@ func (d *Driver) apply(e *mc.Env, s *mc.State, op mc.Op) []mc.Finding {
 		}
 		m.cs = append(m.cs, contract{ID: resp.Id, Sender: t.sender, To: t.to, Amount: t.amount, Secret: t.secret, Timestamp: ts,
 			Expiry: s.Ctx.BlockHeight() + int64(t.lock), Transfer: t.transfer, Dir: t.dir, Tmpl: t.name})
+		return fs
+	case "banksend":
+		s.Deliver(e, op.Name, &banktypes.MsgSetSendEnabled{Authority: mc.Authority().String(), SendEnabled: []*banktypes.SendEnabled{{Denom: od.why, Enabled: od.idx == 1}}})
 		return fs
 	case "delist", "relist":
 		p := assetParams()
@@ -638,6 +670,12 @@ func Parts(mode string) func() []mc.Part {
 		ps = append(ps,
 			mc.ExplorePart("plain-restarting", mc.WithBoundaryRestart(New(Variant{Name: "plain-restarting", Mode: mode}), skip, "htlc"), 6, 8, false, rule),
 			mc.ExplorePart("cross-chain-restarting", mc.WithBoundaryRestart(New(Variant{Name: "cross-chain-restarting", Mode: mode, Cross: true}), skip, "htlc"), 5, 6, false, rule))
+		// governance freezes transfers of the locked denomination between accounts (bank SendEnabled) around the expiry
+		ps = append(ps,
+			mc.ExplorePart("plain-send-disabled", New(Variant{Name: "plain-send-disabled", Mode: mode, BankSend: true}), 5, 7, false, rule),
+			mc.ExplorePart("cross-chain-send-disabled", New(Variant{Name: "cross-chain-send-disabled", Mode: mode, Cross: true, BankSend: true, Only: []string{"in1", "out1"}}), 6, 8, false, rule))
+		// a hundred and twenty contracts due at one height
+		ps = append(ps, BurstPart(mode))
 		if mode == "C04" {
 			ps = append(ps, GenesisAssertionPart())
 		}
